@@ -16,7 +16,7 @@ checkExecutable, data.Job.command, runtime.backends.LocalTaskGenerator, runtime.
 4. code -> spec: seeded random runs of the same world are recorded and validated by TLC with ExecutorChain_trace.tla; one recorded
    field is corrupted as a self-test of the binding (the corrupted trace must be rejected).
 
-Switches (environment variables, default = the code at HEAD; set to FALSE once /repo is repaired and the promise becomes the only
+Switches (environment variables, default = the code at HEAD: the first two were repaired and default to FALSE; set to FALSE once /repo is repaired and the promise becomes the only
 accepted behaviour): G05_CACHE_IGNORES_RESOLVE, G05_BROKEN_YIELDS_EMPTY, G05_SEMICOLON_JOIN, G05_DEAD_BEFORE_TRANSFER.
 """
 import json
@@ -36,15 +36,15 @@ PID = "G05"
 GEN = os.path.join(SPEC, "gen", "g05_%d" % os.getpid())
 
 
-def _sw(name):
-    v = os.environ.get(name, "TRUE").upper()
+def _sw(name, default="TRUE"):
+    v = os.environ.get(name, default).upper()
     if v not in ("TRUE", "FALSE"):
         raise MachineryError("%s must be TRUE or FALSE" % name)
     return v
 
 
-CACHE_IGNORES = _sw("G05_CACHE_IGNORES_RESOLVE")
-BROKEN_EMPTY = _sw("G05_BROKEN_YIELDS_EMPTY")
+CACHE_IGNORES = _sw("G05_CACHE_IGNORES_RESOLVE", "FALSE")     # repaired in /repo (see known_findings.json)
+BROKEN_EMPTY = _sw("G05_BROKEN_YIELDS_EMPTY", "FALSE")       # repaired in /repo
 SEMICOLON = _sw("G05_SEMICOLON_JOIN")
 DEAD_BEFORE_TRANSFER = _sw("G05_DEAD_BEFORE_TRANSFER")
 
